@@ -615,6 +615,15 @@ func (p *InlineParser) parseBackslash(state *inlineState, start int) (end int) {
 			// Hard line breaks not permitted at end of block.
 			newNode.kind = TextKind
 		} else {
+			// The hard line break includes the line ending,
+			// like the trailing spaces form,
+			// so that no soft line break follows it.
+			if end := state.spanEnd(); newNode.span.End < end && state.source[newNode.span.End] == '\r' {
+				newNode.span.End++
+			}
+			if end := state.spanEnd(); newNode.span.End < end && state.source[newNode.span.End] == '\n' {
+				newNode.span.End++
+			}
 			// Leading spaces at the beginning of the next line are ignored.
 			state.ignoreNextIndent = true
 		}
